@@ -10,6 +10,9 @@
       sizes Richardson-extrapolated in n^-dim, n^-(dim+2); Lss, Lsv and L1vv are compared by Check_Rel with the
       oracle's measured resolution (3e-4 / 3e-3 of the largest coefficient; cases the oracle does not resolve
       are not judged).
+(v)   spec/rel/PairChain.tla defines that chain (hop / exchange actions on the torus, quotient by translations);
+      TLC checks its invariants on the real jump networks and its state graph must equal the transition list of
+      the oracle (a discrepancy is a machinery failure, exit 2, never a finding).
 """
 import numpy as np
 from fractions import Fraction
@@ -94,6 +97,21 @@ def run(ctx):
                               {"world": name, "Nthermo": nth, "data": {"eneL": [0, 1], "eneTL": [0, 1]}, "levels": lv}))
     # ---- (iv) general interacting data: the periodic one-solute/one-vacancy chain, Richardson-extrapolated
     chain_cases(ctx, quick, rng, rcases, rmetas)
+    # ---- (v) the chain that (iv) solves is the chain spec/rel/PairChain.tla defines (TLC state graph == recorded
+    #          transitions, invariants and action properties checked by TLC on the real jump network)
+    from .. import chainspec
+    sw = [("honeycomb", 0, 1), ("polarrect", 1, 2), ("fcc", 0, 1)]
+    if not quick:
+        sw += [("sqpolar", 1, 1), ("hcp", 0, 2), ("wurtzite", 0, 2), ("bcc", 0, 1), ("square", 0, 1), ("b2", 0, 1)]
+    for name, chem, shell in sw:
+        v = calc.vacancy(name, chem, shell, 1, rng)
+        rmax = max(int(np.max(np.abs(PS.R))) for PS in v.calc.kinetic.states)
+        n = 2 * rmax + 1
+        out, info = chainspec.check_structure(ctx, v, chem, n, name)
+        ctx.case("chainspec|%s|n%d" % (name, n), nontrivial=info["exchanges"] > 0)
+        ctx.info("chainspec_%s" % name, info)
+        if out:
+            raise tlc.TLCError("the pair-chain oracle does not implement spec/rel/PairChain.tla on %s: %s" % (name, out))
     fails, infos, results = tlc.run_cases("Check_C02", cases, shards=8 if quick else 14, timeout=2400)
     for r in results:
         ctx.add_model(r)
